@@ -79,7 +79,8 @@ type Snapshot struct {
 	Resps      map[string]types.Response
 	Vols       []VolEntry
 	Earned     []EarnEntry
-	OwnerEarn  map[string]int64 // owner hex -> amount (single denom)
+	OwnerEarn  map[string]int64 // owner hex -> amount of stake
+	OwnerEarnP map[string]int64 // owner hex -> amount of the second coin ("point")
 	Malformed  []string         // keys the harness could not parse
 
 	Raw map[string][]byte // every pair of the service store
@@ -129,6 +130,7 @@ func (w *World) SnapshotAt(ctx sdk.Context) *Snapshot {
 		ActiveID:   map[string]string{},
 		Resps:      map[string]types.Response{},
 		OwnerEarn:  map[string]int64{},
+		OwnerEarnP: map[string]int64{},
 		Raw:        map[string][]byte{},
 		Bal:        map[string]int64{},
 		BalP:       map[string]int64{},
@@ -294,7 +296,11 @@ func (w *World) SnapshotAt(ctx sdk.Context) *Snapshot {
 				bad()
 				continue
 			}
-			s.OwnerEarn[hx(body[:len(body)-len(c.Denom)])] += mustI64(c.Amount)
+			if c.Denom == "point" {
+				s.OwnerEarnP[hx(body[:len(body)-len(c.Denom)])] += mustI64(c.Amount)
+			} else {
+				s.OwnerEarn[hx(body[:len(body)-len(c.Denom)])] += mustI64(c.Amount)
+			}
 		default:
 			bad()
 		}
@@ -362,15 +368,42 @@ func (s *Snapshot) Digest() string {
 func (s *Snapshot) bal(addrHex string) int64 { return s.Bal[addrHex] }
 
 // EarnedOf returns the earned amount recorded exactly for the provider (hex).
-func (s *Snapshot) EarnedOf(provHex string) int64 {
+func (s *Snapshot) EarnedOf(provHex string) int64 { return s.EarnedOfIn(provHex, "stake") }
+
+// EarnedOfIn: the amount of one denomination recorded exactly for the provider
+func (s *Snapshot) EarnedOfIn(provHex, denom string) int64 {
 	var t int64
 	for _, e := range s.Earned {
-		if e.Provider == provHex {
+		if e.Provider == provHex && e.Denom == denom {
 			t += e.Amount
 		}
 	}
 	return t
 }
+
+// views of the snapshot in one denomination
+func (s *Snapshot) balIn(denom string) map[string]int64 {
+	if denom == "point" {
+		return s.BalP
+	}
+	return s.Bal
+}
+
+func (s *Snapshot) supplyIn(denom string) int64 {
+	if denom == "point" {
+		return s.SupplyP
+	}
+	return s.Supply
+}
+
+func (s *Snapshot) ownerEarnIn(denom string) map[string]int64 {
+	if denom == "point" {
+		return s.OwnerEarnP
+	}
+	return s.OwnerEarn
+}
+
+func amtIn(c sdk.Coins, denom string) int64 { return mustI64(c.AmountOf(denom)) }
 
 func sortedKeys[V any](m map[string]V) []string {
 	ks := make([]string, 0, len(m))
